@@ -81,9 +81,12 @@ class NumpyQuantity(Generic[MagnitudeT], PlainQuantity[MagnitudeT]):
         care of the units.
         """
 
-        # Set input units if needed
+        # Set input units if needed: work on a converted copy, a method that
+        # returns a new quantity must not rescale the object it is called on.
         if func.__name__ in set_units_ufuncs:
-            self.__ito_if_needed(set_units_ufuncs[func.__name__][0])
+            to_units = set_units_ufuncs[func.__name__][0]
+            if not (self.unitless and to_units == "radian"):
+                func = getattr(self.to(to_units)._magnitude, func.__name__)
 
         value = func(*args, **kwargs)
 
@@ -206,12 +209,6 @@ class NumpyQuantity(Generic[MagnitudeT], PlainQuantity[MagnitudeT]):
         Wraps np.prod().
         """
         return np.prod(self, *args, **kwargs)
-
-    def __ito_if_needed(self, to_units):
-        if self.unitless and to_units == "radian":
-            return
-
-        self.ito(to_units)
 
     def __len__(self) -> int:
         return len(self._magnitude)
